@@ -32,6 +32,7 @@ DECODE_FILES = [
     "scylla-cql-core/src/deserialize/result.rs",
     "scylla-cql-core/src/deserialize/row.rs",
     "scylla-cql-core/src/deserialize/frame_slice.rs",
+    "scylla-cql-core/src/deserialize/value.rs",
 ]
 ALLOC_RE = re.compile(r"with_capacity\s*\(|\.reserve(?:_exact)?\s*\(|vec!\s*\[|\.resize\s*\(")
 
@@ -204,7 +205,9 @@ SPEC = {
              "encoder (seeded, incl. types nested 10..10^5); T = strict prefixes of W (every cut point for short frames); "
              "U = body cut with a consistent header length; M = field mutations of W (4/2-byte boundary values at random "
              "offsets, +-1, bit flips, header fields, insert/delete, random runs); C = LZ4/Snappy-compressed variants and "
-             "their mutations / wrong codec; R = random bytes, plain and behind a valid header. non-trivial = every case; "
+             "their mutations / wrong codec; R = random bytes, plain and behind a valid header. On every accepted frame also: "
+             "typed rows (rows_iter::<Row>() over CqlValue, position of the first failure) and the tablet routing payload "
+             "(RawTablet::from_custom_payload via hook H6). non-trivial = every case; "
              "distinct = distinct case lines"),
     "nontrivial": lambda ln: True,
     "trusted_base": [
